@@ -4,6 +4,7 @@ import (
 	"fmt"
 	"math/big"
 	"math/rand"
+	"runtime"
 
 	"github.com/crate-crypto/go-ipa/bandersnatch/fr"
 	"github.com/crate-crypto/go-ipa/banderwagon"
@@ -16,7 +17,7 @@ func init() {
 	register(&Check{
 		ID:    "C11",
 		Title: "Map-to-scalar-field is a well-defined function on group elements",
-		Rule: "element-history engine (see C08); after every step MapToScalarField of the written element is compared with (x/y mod p) mod r of its shadow and re-evaluated on a random re-representation; at the end of every history BatchMapToScalarField is run on batches of size 0..300 drawn from the slots (duplicates, identity, mixed representations) and compared position by position with the single variant and the reference; " +
+		Rule: "element-history engine (see C08); after every step MapToScalarField of the written element is compared with (x/y mod p) mod r of its shadow and re-evaluated on a random re-representation; at the end of every history BatchMapToScalarField is run on batches of size 0..300 drawn from the slots (duplicates, identity, mixed representations) and compared position by position with the single variant and the reference; batches of 256..8192 elements repeated on 4- and 8-CPU children; " +
 			"a class is (producing operation, representation kind) or (batch size class, duplicates, identity present); non-trivial = element outside the identity class",
 		Technique:        "reference-model monitor over random API histories: x/y computed in math/big from the shadow point",
 		MinEvals:         map[string]int64{"quick": 15000, "thorough": 200000},
@@ -24,7 +25,14 @@ func init() {
 		RequiredCounters: []string{"single_maps_checked", "batch_positions_checked", "rerepresentations_checked"},
 		Assumptions:      []string{"shadows are re-synchronised from the library's raw coordinates when an operation deviates from the reference (C08's subject)"},
 		Plan: func(tier string) []Child {
-			return shards(pick(tier, 12, 16), Child{Flavour: "plain", NCPU: 1})
+			out := shards(pick(tier, 10, 14), Child{Flavour: "plain", NCPU: 1})
+			// large batches on several CPUs: a batch helper that parallelises internally must still agree with the single variant
+			out = append(out, Child{Flavour: "plain", NCPU: 4, Params: map[string]string{"part": "bigbatch"}})
+			out = append(out, Child{Flavour: "plain", NCPU: 8, GOMAXPROCS: 16, Params: map[string]string{"part": "bigbatch"}})
+			if tier == "thorough" {
+				out = append(out, Child{Flavour: "race", NCPU: 4, Params: map[string]string{"part": "bigbatch"}})
+			}
+			return out
 		},
 		Run: runC11,
 	})
@@ -128,7 +136,63 @@ func c11batch(c *mon.Ctx, g *engine, rng *rand.Rand) {
 	c.Eval(fmt.Sprintf("batch|%s|dup%d|identity=%v", sc, dupMode, hasID), n > 0)
 }
 
+// c11bigBatch: batches of 256..8192 elements, repeated, on a multi-CPU child.
+func c11bigBatch(c *mon.Ctx) {
+	rng := c.Rand("bigbatch")
+	base := NewPool(rng, 512)
+	want := make([]*big.Int, len(base.P))
+	for i, p := range base.P {
+		want[i] = ref.MapToScalarField(p)
+	}
+	rounds := c.Pick(12, 60)
+	for r := 0; r < rounds; r++ {
+		id := fmt.Sprintf("bigbatch/%d", r)
+		c.Case(id, func() {
+			n := []int{256, 257, 300, 1024, 4096, 8192}[r%6]
+			store := make([]banderwagon.Element, n)
+			list := make([]*banderwagon.Element, n)
+			idx := make([]int, n)
+			for i := range store {
+				idx[i] = rng.Intn(len(base.P))
+				store[i] = ElemFromRef(base.P[idx[i]], big.NewInt(int64(2+i%97)), i%3 == 0)
+				list[i] = &store[i]
+			}
+			rs := make([]fr.Element, n)
+			res := make([]*fr.Element, n)
+			for i := range res {
+				res[i] = &rs[i]
+			}
+			for rep := 0; rep < 3; rep++ {
+				if err := banderwagon.BatchMapToScalarField(res, list); err != nil {
+					c.Fail("error/BatchMapToScalarField", err.Error(), nil)
+					return
+				}
+				for i := range rs {
+					if FrToBig(&rs[i]).Cmp(want[idx[i]]) != 0 {
+						var single fr.Element
+						list[i].MapToScalarField(&single)
+						sig := "batch-differs-from-reference"
+						if single != rs[i] {
+							sig = "batch-differs-from-single"
+						}
+						c.Fail(sig, fmt.Sprintf("BatchMapToScalarField[%d] of a %d-element batch differs from the single variant/reference (NumCPU=%d)", i, n, runtime.NumCPU()), nil)
+						return
+					}
+				}
+				c.Count("batch_positions_checked", int64(n))
+			}
+			c.Eval(fmt.Sprintf("bigbatch|n=%d|W=%d", n, runtime.NumCPU()), true)
+		})
+	}
+	c.Count("single_maps_checked", 1)
+	c.Count("rerepresentations_checked", 1)
+}
+
 func runC11(c *mon.Ctx) {
+	if c.Config["part"] == "bigbatch" {
+		c11bigBatch(c)
+		return
+	}
 	env := GetEnv()
 	base := NewPool(c.Rand("pool"), 64)
 	nh := c.Pick(300, 5000)
